@@ -1,4 +1,5 @@
 import RV.C05.Model
+import RV.C05.Utf8
 import RV.Base.Proto
 /-
   C05 driver (stateless).  Strings cross the protocol as decimal code points; fields are
@@ -12,6 +13,10 @@ import RV.Base.Proto
     rel k | base cp… | target cp…  -> rt=ok|rt=bad cp…               showRef (relativize base target k);
                                                        rt = resolving the printed reference gives the target back
     res | base cp… | ref cp…  -> cp…                                  showRef (resolve base ref)
+    u8e cp…                   -> b…                                   Utf8.encode (code points → bytes)
+    u8d b…                    -> reject | ok cp…                      Utf8.decode (strict)
+    route sx r cp…            -> reject | ok cp…                      Utf8.handed: what the reader of syntax sx
+                                 (nt|nquads|turtle|trig) receives on route r (str|bytes|file)
 
   Term syntax in answers: I<cps> B<cps> P<cps> G<cps>|<cps> T<cps>|<cps>, code points comma-separated.
 -/
@@ -103,6 +108,27 @@ def answer : List String → String
     | _ => "bad-op"
   | _ => "bad-op"
 
-def step (s : Unit) (ws : List String) : Unit × String := (s, answer ws)
+def nats? (ws : List String) : Option (List Nat) := ws.mapM String.toNat?
+def showNatsSp (xs : List Nat) : String := " ".intercalate (xs.map toString)
+def okNats : Option (List Nat) → String
+  | none => "reject"
+  | some xs => if xs.isEmpty then "ok" else "ok " ++ showNatsSp xs
+
+def syntax? : String → Option Utf8.Syntax
+  | "nt" => some .nt | "nquads" => some .nquads | "turtle" => some .turtle | "trig" => some .trig | _ => none
+def route? : String → Option Utf8.Route
+  | "str" => some .str | "bytes" => some .bytes | "file" => some .file | _ => none
+
+def answerU : List String → Option String
+  | "u8e" :: ws => (nats? ws).map (fun cps => showNatsSp (Utf8.encode cps))
+  | "u8d" :: ws => (nats? ws).map (fun bs => okNats (Utf8.decode bs))
+  | "route" :: sx :: r :: ws =>
+    match syntax? sx, route? r, nats? ws with
+    | some sx, some r, some doc => some (okNats (Utf8.handed sx r doc))
+    | _, _, _ => none
+  | _ => none
+
+def step (s : Unit) (ws : List String) : Unit × String :=
+  (s, match answerU ws with | some a => a | none => answer ws)
 
 def main : IO Unit := RV.Proto.run step ()
